@@ -303,7 +303,7 @@ def main():
                                "(ocaml/skcmodel) and run on the same generated inputs as the real library (harness/)"),
         }],
         "checks": checks,
-        "notes": ("fix: commits in /repo repair fourteen genuine defects (see known_findings.json 'fixed'); "
+        "notes": ("fix: commits in /repo repair fifteen genuine defects (see known_findings.json 'fixed'); "
                   "remaining genuine defects are listed as known findings."),
         "not_applicable": na,
     }
